@@ -41,10 +41,18 @@ extern int mpt_string_set(char **ptr, const char *data, int len)
 	if (data == *ptr) {
 		return 0;
 	}
+	/* new text is part of the current one: move before the block may change */
+	if ((txt = *ptr) && data > txt && data <= txt + strlen(txt)) {
+		memmove(txt, data, len);
+		data = 0;
+	}
 	if (!(txt = realloc(*ptr, len + 1))) {
 		return MPT_ERROR(BadOperation);
 	}
-	*ptr = memcpy(txt, data, len);
+	if (data) {
+		memcpy(txt, data, len);
+	}
+	*ptr = txt;
 	txt[len] = 0;
 	
 	return len;
